@@ -63,12 +63,12 @@ def cousins(a, b, c, d):
 
 
 # ---------------------------------------------------------------- tiny class: references
-@shape('a')
+@shape('a', quick_codes=('0120', '0123', '0121', '0122', '0010', '0012', '0102', '0112', '0000'))
 def share_top(a, b, c, r):
     return [N(a), N(b, x=r), N(c, x=r)]
 
 
-@shape('a')
+@shape('a', quick_codes=('0121', '0120', '0122', '0123', '0012', '0102', '0112', '0010'))
 def share_nested(a, b, c, r):
     return [N(a, x=N(b)), N(c, x=r)]
 
